@@ -14,7 +14,10 @@ correspondence: Regex.matchStr vs regexp.MatchString on strings drawn from every
                 widths 1..64, boundary values).  The property itself (unique matcher; round trip;
                 widths) is evaluated on every implementation line.
 direct search:  float16/32, fixed point, FXP, linear quantiser round trips are evaluated on the Go
-                side only (strconv / float arithmetic is not modelled in Lean).
+                side only (strconv / float arithmetic is not modelled in Lean): literal-first cases and
+                pattern-first cases (value built from a bit pattern with ImportBytes+CastType, every
+                fixed-point format s=1..32 x f=0..s with full-width patterns), so a lossy importer
+                cannot hide behind values it produced itself.
 """
 import json
 import os
@@ -401,7 +404,9 @@ def run(rep):
         "round trip theorems: unsigned (64 bit), bin, hex proved in Lean; signed proved for the proposed repair "
         "(repo_patches/C08-signed-export.diff); float16/32, fixed point, FXP, linear quantiser ASSUMED (searched on the Go side only); "
         "FloPoCo not evaluated (external tools absent)",
-        "values are those reachable through ImportString (NaN payloads, CastType'd numbers are outside)",
+        "integer-like values are those reachable through ImportString; float-like values are also built from raw bit patterns "
+        "(ImportBytes+CastType) for every fixed-point format s=1..32, f=0..s; NaN payloads other than the canonical NaN and "
+        "fixed-point formats with f >= 63 are outside",
     ]
 
     # 4. correspondence + property evaluation on the implementation
@@ -508,7 +513,9 @@ def run(rep):
                 "newline/invalid UTF-8/non-ASCII digits/'.0' suffix), fixed near-misses; every string is judged by all matchers on "
                 "both sides. numbers: grid over widths 1..64 x {0,1,2^w-1,2^w} for 0u<>/0d<>/0b<>/0x<>, boundary decimals around "
                 "2^k, 2^63, 2^64, random structured literals, malformed stream. non-trivial = accepted by exactly one matcher / "
-                "imported successfully; distinct = distinct strings / distinct (type,bits,bytes) values",
+                "imported successfully; distinct = distinct strings / distinct (type,bits,bytes) values. floats: literal-first "
+                "(specials, denormals, random) and pattern-first (pat:<type>:<bits>:<hex>: fps/fxps at every s=1..32 x f=0..s with "
+                "all-ones/alternating/2^k+-1/random full-width patterns, raw float16/float32 patterns, quantiser bands)",
         "samples": samples[:6],
         "traces_validated_against_impl": rst["strings"] + nst_all.get("literals", 0),
         "input_distribution": {"seed": seedinfo, "regex_strings": rst, "numbers": nst_all, "floats": fst,
